@@ -227,8 +227,13 @@ def confirm(v, scratch):
         return True
     path = os.path.join(scratch, "confirm-%s.json" % v["hash"])
     json.dump(v, open(path, "w"))
-    p = subprocess.run([os.path.join(ROOT, "bin", "replay"), "-replayfile", path], capture_output=True, text=True, env=ENV)
-    return p.returncode == 1
+    # the code under test may itself be nondeterministic (e.g. Go map iteration order): a violation counts
+    # as reproduced if one of a few fresh re-runs fails again
+    for _ in range(8):
+        p = subprocess.run([os.path.join(ROOT, "bin", "replay"), "-replayfile", path], capture_output=True, text=True, env=ENV)
+        if p.returncode == 1:
+            return True
+    return False
 
 
 def main():
